@@ -284,6 +284,18 @@ theorem range_slice_never_traps (len i : Int) : rangeSlice len i ≠ .trap := by
 runes, `stop = 48 ≤ 80 = len(str)` but `48 > 40 = len([]rune(str))`. -/
 theorem mismatched_guard_traps : guardedSlice 40 80 0 48 = .trap := by decide
 
+/-! ### Slice expressions of the parser and the node constructors (the comment path included) -/
+
+/-- Every slice / index expression that tick/ast/parser.go and tick/ast/node.go contain NOW (extracted) is
+one of the reviewed sites of `reviewedAstSites`; a new one (such as `comment[len("//"):]`) breaks this. -/
+theorem ast_slice_sites_reviewed : ∀ s ∈ Gen.astSliceSites, astSiteReviewed s = true := by decide
+
+/-- `newComment` (comment tokens → `CommentNode`) and `parser.nextToken` (comment collection) contain no
+slice or index expression at all: they are compositions of total library calls (`strings.Split`,
+`TrimSpace`, `TrimPrefix`, `append`), so every comment token stream builds a node without a trap site. -/
+theorem comment_path_has_no_slice_site :
+    ∀ s ∈ Gen.astSliceSites, s.1 ≠ "newComment" ∧ s.1 ≠ "parser.nextToken" := by decide
+
 /-! ### The JSON node factory -/
 
 /-- **getNode_total**: over the extracted `typeOf` switch, every tag either allocates a concrete node or is
